@@ -270,6 +270,7 @@ func VerifR13SnapshotStructure() {
 	if typ < vNumTypes {
 		vBase(a, typ)
 		vSkew(a, "skewA")
+		vSmallAlphabet = zzvsym.Tier() > 0 // four edits: reduced index alphabets
 		n := 3 + zzvsym.Tier()
 		for i := 0; i < n; i++ {
 			vEdit(a, vName("e", i), typ, 10+i)
